@@ -56,6 +56,7 @@ Covers(ds, fault) == \E x \in 1..Len(ds) : ds[x].code = fault.code /\ Intersects
 Contains(d, lo, hi) == d.start <= lo /\ hi <= d.end
 CoversPart(d, q) == IF q.whole THEN Contains(d, q.start, q.end) ELSE Intersects(d, q.start, q.end)
 CoversParts(ds, fault) == \E x \in 1..Len(ds) : /\ ds[x].code = fault.code
+                                                 /\ ("file" \in DOMAIN fault) => ds[x].file = fault.file
                                                  /\ \E p \in 1..Len(fault.parts) : CoversPart(ds[x], fault.parts[p])
 
 \* A LAYOUT VARIANT of an input whose diagnostics are known (the same text without its final line break, behind an
